@@ -2,13 +2,16 @@
 """Rebuilds section 0.8 of tools/sec0.md (table of seeded breaking changes) from seeded/*/meta.json, then merges DESIGN.md."""
 import json, glob, re, os, subprocess
 V = os.path.dirname(os.path.dirname(os.path.abspath(__file__)))
-rows, cnt = [], {}
+rows, cnt, harmless = [], {}, []
 for f in sorted(glob.glob(os.path.join(V, 'seeded', '*', 'meta.json'))):
     m = json.load(open(f))
     title = m['needs_to_manifest'].split('\n')[0]
     title = re.sub(r'^#\s*(C\d\d\s*/?\s*)?(seed|change|Seed)?\s*[AB]?\s*[—-]\s*', '', title).strip()
     title = re.sub(r'^C\d\d seed [AB] — ', '', title)
     st = m['check_result']
+    if m.get('kind', '').startswith('harmless'):
+        harmless.append('| %s | %s | %s | %s |' % (m['id'], title.replace('|', '/'), st, m['failing_obligation'].replace('|', '/')[:260]))
+        continue
     if st == 'pending':
         st = 'missed'
     key = 'caught after strengthening' if 'after' in st else ('caught' if st.startswith('caught') else ('undecided' if 'undecided' in st else 'missed'))
@@ -26,6 +29,17 @@ confirmed each (`tools/seedtest.sh`), applied it to `/repo`, ran the property's 
 '''
 summary = '\n\n%d seeds: %d caught at once, %d caught only after strengthening a contract, a proof anchor or the attribution, %d undecided (exit 2), %d missed; the missed ones name the next functions to bring under contract.\n' % (
     sum(cnt.values()), cnt.get('caught', 0), cnt.get('caught after strengthening', 0), cnt.get('undecided', 0), cnt.get('missed', 0))
+summary += '''
+Harmless refactorings (round 4; each preserves behaviour exactly - same results, errors, requests to the source, memory - and
+was confirmed so by its author's differential demo). The requirement is that no check raises an alarm:
+
+| seed | refactoring | result | what the proof run said |
+|------|-------------|--------|-------------------------|
+''' + '\n'.join(harmless) + '''
+
+%d harmless refactorings, %d alarms. A rewritten function loses its proof anchors (the contract names statements and loops of the
+old body), so the deductive run answers UNDECIDED and the bounded stand-ins, which only look at behaviour, pass: exit 2, no VIOLATION line.
+''' % (len(harmless), sum(1 for h in harmless if 'FALSE ALARM' in h))
 p = os.path.join(V, 'tools', 'sec0.md')
 t = open(p).read()
 t = t[:t.index('### 0.8 Seeded breaking changes')] + head + '\n'.join(rows) + summary
